@@ -189,6 +189,8 @@ def draw_solve(rng, P, out, peer_mode="tagged", allow_mosek=True, allow_heuristi
         cfg["heuristic"] = rng.choice(["trace", "logdet1", "logdet2", "logdet3"])
         cfg["tol"] = float("%.2g" % (10 ** rng.uniform(-6, -2)))
         cfg["eig"] = float("%.2g" % (10 ** rng.uniform(-2, -1)))
+    if rng.random() < 0.15:
+        cfg["positional"] = rng.choice([1, 2, 3, 4, 5, 6, 6])    # that many leading options given positionally
     op = {"op": "solve", "P": P, "out": out, "cfg": cfg, "peer": peer, "env": envc}
     return op
 
